@@ -1,0 +1,39 @@
+//go:build verif
+
+// Contracts of the command line front end (C18). Comment-only: see /verif/DESIGN.md.
+package main
+
+// The mode named on the command line is the mode stored; anything else is an error and stores
+// nothing.
+//@ func replaceMode [C18]
+//@   nopanic
+//@   modifies replaceModeArg
+//@   ensures overwrite: value == "OVERWRITE" ==> result == nil && replaceModeArg == engine.OVERWRITE
+//@   ensures nothing: value == "NOTHING" ==> result == nil && replaceModeArg == engine.NOTHING
+//@   ensures new: (value == "NEW" || value == "") ==> result == nil && replaceModeArg == engine.NEW
+//@   ensures unknown: !(value == "OVERWRITE" || value == "NOTHING" || value == "NEW" || value == "") ==> result != nil && replaceModeArg == old(replaceModeArg)
+
+// The default mode is NEW.
+//@ func init [C18]
+//@   nopanic none
+//@   modifies *
+//@   ensures default: replaceModeArg == engine.NEW
+
+// A JSON output file is opened so that it can be truncated and written.
+//@ func OpenFile [C18]
+//@   nopanic none
+//@   ensures writable: result != nil && result.writable && result.name == filename
+//@ func Truncate [C18]
+//@   requires f != nil && f.writable
+//@   nopanic
+//@   modifies f.data, f.pos
+//@   ensures f.data == "" && f.pos == 0
+
+// Validation comes before anything that can touch a file: when the library is run the flag
+// combination is valid, and it is run with the stored mode and the -filenames flag.
+//@ func main [C18]
+//@   nopanic none
+//@   modifies *
+//@   atcall RunFiles valid: (len(search_files_glob) != 0 || debug) && ((len(source) != 0) != (len(command) != 0)) && !(out_json && out_fjson)
+//@   atcall RunFiles args: arg2 == replaceModeArg && arg3 == process_filenames
+//@   atcall WriteString file: (arg0.name == json_file && arg1 == jsonOf(box(engine.Matches, results))) || (arg0.name == fjson_file && arg1 == jsonIndentOf(box(engine.Matches, results), "", "\t"))
